@@ -376,30 +376,54 @@ def gen_operators():
       yield f"op:{kind}:{op}:after-correct-write", one(kind, ref("x"), op, pre=[("=", ref("x"), c(4, 0), good)])
 
 
+def gen_three_writers():
+  """thorough tier: three writes to one carrier over every multiset of three access shapes: three comb blocks, two in one block + one,
+  two blocks + a connection from an input (only one defect class -- several drivers -- can arise)"""
+  for label, t, dims, shapes in CARR:
+    for i1, i2, i3 in itertools.combinations_with_replacement(range(len(shapes)), 3):
+      s1, s2, s3 = shapes[i1], shapes[i2], shapes[i3]
+      base = [("in_", "in", B(4), ()), ("sel", "in", B(2), ()), ("X", "wire", t, dims)]
+      wa = _wr("blkA", "comb", ref("X", *s1), t, dims)
+      wb = _wr("blkB", "comb", ref("X", *s2), t, dims)
+      wc = _wr("blkC", "comb", ref("X", *s3), t, dims)
+      yield f"b3:{label}:{s1}|{s2}|{s3}:three-blocks", comp("B3", base, blocks=[wa, wb, wc])
+      yield f"b3:{label}:{s1}|{s2}|{s3}:two-in-one-block", comp("B3s", base, blocks=[("blkA", "comb", wa[2] + wb[2]), wc])
+      yield f"b3:{label}:{s1}|{s2}|{s3}:one-block", comp("B3o", base, blocks=[("blkA", "comb", wa[2] + wb[2] + wc[2])])
+      if not any(a[0] in ("v", "vb") for a in s3):
+        w3, t3 = shape_width(t, dims, s3)
+        yield f"b3:{label}:{s1}|{s2}|{s3}:two-blocks+net", comp("B3n", base + [("src", "in", t3, ())], blocks=[wa, wb], connects=[(ref("X", *s3), ref("src"))])
+
+
 GENS = [gen_block_block, gen_block_net, gen_net_net, gen_hier, gen_nets_structure, gen_port_nets, gen_operators]
+TIER = ["quick"]
 
 
 def all_cases():
-  for g in GENS:
+  for g in GENS + ([gen_three_writers] if TIER[0] == "thorough" else []):
     yield from g()
 
 
 # ------------------------------------------------------------------ running
 
 def reorder(d, variant):
-  """variant 1: reversed block and connection order in every component."""
+  """variant 1: reversed block and connection order in every component; variants 2.. (thorough): the other permutations of <= 3 blocks."""
   if variant == 0: return d
   def rec(cmp):
     out = dict(cmp)
-    out["blocks"] = list(reversed(cmp.get("blocks", [])))
-    out["connects"] = list(reversed(cmp.get("connects", [])))
+    blocks = list(cmp.get("blocks", []))
+    if variant == 1 or len(blocks) < 3:
+      out["blocks"] = list(reversed(blocks)) if variant % 2 else blocks
+    else:
+      perms = [p for p in itertools.permutations(range(len(blocks))) if list(p) not in (list(range(len(blocks))), list(reversed(range(len(blocks)))))]
+      out["blocks"] = [blocks[k] for k in perms[(variant - 2) % len(perms)]]
+    out["connects"] = list(reversed(cmp.get("connects", []))) if variant % 2 else list(cmp.get("connects", []))
     out["children"] = [(n, rec(ch)) for n, ch in cmp.get("children", [])]
     return out
   return rec(d)
 
 
 def elaborate(d, hp):
-  mult = (1, 7919, 104729)[hp]
+  mult = (1, 7919, 104729, 31, 65537, 999983)[hp]
   with seams.hash_seam(lambda o, i: (i * mult + hp) % 1000003):
     cls, src, mod = ir.load(d)
     try:
@@ -418,9 +442,10 @@ def check_case(name, d, acc):
   except Exception as ex:
     raise MachineryError(f"analysis failed on {name}: {ex!r}")
   fam = name.split(":")[0]
-  for variant in (0, 1):
+  thorough = TIER[0] == "thorough"
+  for variant in ((0, 1, 2, 3, 4, 5) if thorough and name.startswith("b3:") else (0, 1)):
     dd = reorder(d, variant)
-    for hp in (0, 1, 2):
+    for hp in ((0, 1, 2, 3, 4, 5) if thorough else (0, 1, 2)):
       ex = elaborate(dd, hp)
       got = type(ex).__name__ if ex is not None else None
       acc.count("evaluations")
@@ -436,7 +461,7 @@ def check_case(name, d, acc):
 
 def _detail(name):
   parts = name.split(":")
-  return parts[-1] if parts[0] in ("bb", "bn", "hier") else ":".join(parts[1:])
+  return parts[-1] if parts[0] in ("bb", "bn", "hier", "b3") else ":".join(parts[1:])
 
 
 def shards(tier):
@@ -446,6 +471,7 @@ def shards(tier):
 
 def run_shard(shard, tier, seed):
   acc = Acc()
+  TIER[0] = tier
   for j, (name, d) in enumerate(all_cases()):
     if j % shard[1] != shard[0]: continue
     check_case(name, d, acc)
@@ -455,6 +481,7 @@ def run_shard(shard, tier, seed):
 
 def replay(case):
   acc = Acc()
+  TIER[0] = "thorough" if case["name"].startswith("b3:") or case.get("hp", 0) > 2 else "quick"
   check_case(case["name"], ir.norm_comp(case["ir"]), acc)
   return [(v["sig"], v["expected"], v["observed"], v["msg"]) for v in acc.violations][:4]
 
@@ -463,7 +490,7 @@ def finish(acc, tier):
   if acc.n["legal"] < 50 or acc.n["illegal"] < 50: raise MachineryError("legal/illegal mix is vacuous")
   return dict(
     evaluations=int(acc.n["evaluations"]), distinct_nontrivial=int(acc.n["illegal"]),
-    rule="one case = one small design (with its expected verdict from the bit-level analysis) elaborated under 2 statement orders x 3 hash permutations; "
+    rule="one case = one small design (with its expected verdict from the bit-level analysis) elaborated under 2 statement orders x 3 hash permutations (thorough: 6 permutations, all block orders of the three-writer designs); "
          "non-trivial = distinct designs that carry a defect (their defect-free siblings are the other cases)",
     exhaustive=True, cases=int(acc.n["cases"]), legal=int(acc.n["legal"]), illegal=int(acc.n["illegal"]),
     verdict_classes=sorted(f"{f}:{w}" for f, w in acc.sets["expect"]),
